@@ -13,6 +13,11 @@
 EXTENDS SeqBasics, TLC
 CONSTANTS Sym, Starts, Stops, MaxLen, MinLens
 
+\* codon sets for the cfg files (tuples cannot be written there): ATG | ATG,GTG ; TAG,TGA,TAA
+StartsATG == {<<65, 84, 71>>}
+StartsATG_GTG == {<<65, 84, 71>>, <<71, 84, 71>>}
+StopsStd == {<<84, 65, 71>>, <<84, 71, 65>>, <<84, 65, 65>>}
+
 ASSUME Starts \cap Stops = {}                                  \* precondition of the property
 ASSUME ComplementLaws(DnaPairs) /\ ComplementLaws(RnaPairs)    \* all 256 bytes
 ASSUME \A A \in SUBSET {0, 1, 7, 200, 255} : RankLaws(A)
@@ -61,7 +66,7 @@ Next == Consume \/ Emit \/ Finish
 Spec == Init /\ [][Next]_vars
 
 \* ------------------------------------------------------------- invariants
-AllFrames == Frames(seq, Starts, Stops)
+AllFrames == FramesFast(seq, Starts, Stops)      \* = Frames(seq, Starts, Stops) by FramesLemma
 AsPairs(q) == {<<q[i].start, q[i].end>> : i \in 1..Len(q)}
 
 \* the window holds the last min(3,index) symbols
@@ -91,7 +96,7 @@ Sharp == (pc = "done" /\ out # << >>) =>
     /\ ~OrfReportOk(seq, Starts, Stops, minlen, out \o << Head(out) >>)
     /\ ~OrfReportOk(seq, Starts, Stops, minlen, << [Head(out) EXCEPT !.offset = (@ + 1) % 3] >> \o Tail(out))
 
-FramesLemma == index = 0 => FramesFast(seq, Starts, Stops) = AllFrames
+FramesLemma == index = 0 => FramesFast(seq, Starts, Stops) = Frames(seq, Starts, Stops)
 
 Measure == (IF pc = "done" THEN 0 ELSE 1) + (N - index) * (N + 2) + Len(found)
 Progress == [][Measure' < Measure]_vars
